@@ -12,7 +12,7 @@ from ..runner import ops_machine_base, replay_ops
 
 ID = "C16"
 LEVEL = "exploration"
-BUDGET = {"quick": 480, "thorough": 8000}
+BUDGET = {"quick": 480, "thorough": 60000}
 SHARDS = {"quick": 8, "thorough": 16}
 STEP_COUNT = {"quick": 12, "thorough": 16}
 RULE = (
